@@ -238,14 +238,36 @@ theorem server_acceptLogin_oversize (id typ : BitVec 32) (p pw : Bytes) (h1 : 40
   have h := readPacketRd_reject (lengthWord p) _ _ hflat (Or.inr (lengthWord_tooLarge p h1 h2))
   constructor <;> simp [Net.server, acceptLogin, Op.bind_apply, readPacket, h]
 
+theorem loginVerdict_ok_iff (reqID r : BitVec 32) : loginVerdict reqID r = LoginVerdict.ok ↔ r = reqID := by
+  unfold loginVerdict
+  by_cases h : r = reqID
+  · simp [h]
+  · simp only [h, iff_false]
+    have : (r == reqID) = false := by simp [h]
+    rw [this]
+    simp only [Bool.false_eq_true, if_false]
+    split <;> simp
+
+theorem verdictOp_eq (reqID r : BitVec 32) (c : Conn) :
+    verdictOp (loginVerdict reqID r) c = (if r = reqID then Res.ok () else Res.err, c) := by
+  by_cases h : r = reqID
+  · have := (loginVerdict_ok_iff reqID r).mpr h
+    rw [this, if_pos h]; rfl
+  · have hne : loginVerdict reqID r ≠ LoginVerdict.ok := fun e => h ((loginVerdict_ok_iff reqID r).mp e)
+    rw [if_neg h]
+    cases hv : loginVerdict reqID r with
+    | ok => exact absurd hv hne
+    | loginFail => rfl
+    | idMismatch => rfl
+
 theorem client_loginRecv (id typ : BitVec 32) (p rest : Bytes) (hp : p.length + 10 ≤ 4096) (n : Net)
     (hn : n.s2c = packetBytes id typ p ++ rest) :
     n.client clientLoginRecv = (if id = n.creq then Res.ok () else Res.err, { n with s2c := rest }) := by
   obtain ⟨s', h, hf⟩ := readPacket_frame id typ p rest hp
     { inp := Stream.ofBytes n.s2c, out := [], wfail := false, reqID := n.creq } (by simp [hn])
   by_cases h1 : id = n.creq
-  · simp [Net.client, clientLoginRecv, Op.bind_apply, h, getReqID, hf, h1]
-  · simp [Net.client, clientLoginRecv, Op.bind_apply, h, getReqID, hf, h1, Op.fail]
+  · simp [Net.client, clientLoginRecv, Op.bind_apply, h, getReqID, hf, h1, verdictOp_eq]
+  · simp [Net.client, clientLoginRecv, Op.bind_apply, h, getReqID, hf, h1, verdictOp_eq]
 
 theorem client_loginRecv_eof (n : Net) (hn : n.s2c = []) : (n.client clientLoginRecv).1 = Res.err := by
   have h := readPacketRd_short (Stream.ofBytes n.s2c) (by simp [hn])
@@ -443,5 +465,48 @@ theorem read_refines_spec (s : Stream) :
           rw [← le32dec_toNat i0 i1 i2 i3 [], ← le32dec_toNat t0 t1 t2 t3 []]
           simp
         · simp [hdrop]
+
+/-! ### the login decision of `DialRCON` on an arbitrary response stream -/
+
+theorem recv_ok_iff (c : Conn) :
+    (clientLoginRecv c).1 = Res.ok () ↔
+      ∃ p rest, Spec.RCON.parse c.inp.flat = some (p, rest) ∧ BitVec.ofNat 32 p.id = c.reqID := by
+  have h := read_refines_spec c.inp
+  rcases hp : Spec.RCON.parse c.inp.flat with _ | ⟨p, rest⟩
+  · rw [hp] at h
+    simp only at h
+    rcases hr : readPacketRd c.inp with ⟨r, s'⟩
+    rw [hr] at h
+    simp only at h
+    subst h
+    simp [clientLoginRecv, Op.bind_apply, readPacket, hr]
+  · rw [hp] at h
+    simp only at h
+    obtain ⟨s', h1, _, _⟩ := h
+    simp only [clientLoginRecv, Op.bind_apply, readPacket, h1, getReqID, verdictOp_eq]
+    by_cases e : BitVec.ofNat 32 p.id = c.reqID <;> simp [e]
+
+theorem recv_not_panic (c : Conn) : (clientLoginRecv c).1 ≠ Res.panic := by
+  have h := read_refines_spec c.inp
+  rcases hp : Spec.RCON.parse c.inp.flat with _ | ⟨p, rest⟩
+  · rw [hp] at h
+    simp only at h
+    rcases hr : readPacketRd c.inp with ⟨r, s'⟩
+    rw [hr] at h
+    simp only at h
+    subst h
+    simp [clientLoginRecv, Op.bind_apply, readPacket, hr]
+  · rw [hp] at h
+    simp only at h
+    obtain ⟨s', h1, _, _⟩ := h
+    simp only [clientLoginRecv, Op.bind_apply, readPacket, h1, getReqID, verdictOp_eq]
+    by_cases e : BitVec.ofNat 32 p.id = c.reqID <;> simp [e]
+
+theorem clientLogin_eq (pw : Bytes) (c : Conn) :
+    clientLogin pw c = if c.wfail then (Res.err, c)
+      else clientLoginRecv { c with out := c.out ++ packetBytes c.reqID 3#32 pw } := by
+  by_cases hw : c.wfail = true
+  · simp [clientLogin, clientLoginSend, Op.bind_apply, getReqID, writePacket, hw]
+  · simp [clientLogin, clientLoginSend, Op.bind_apply, getReqID, writePacket, hw]
 
 end GoMC.Lemmas.RCON
